@@ -230,6 +230,8 @@ func init() {
 		"HGET":     {3, false, cmdHGet},
 		"HMGET":    {-3, false, cmdHMGet},
 		"HGETALL":  {2, false, cmdHGetAll},
+		"HKEYS":    {2, false, cmdHKeys},
+		"HVALS":    {2, false, cmdHVals},
 		"HDEL":     {-3, true, cmdHDel},
 		"HLEN":     {2, false, cmdHLen},
 		"HEXISTS":  {3, false, cmdHExists},
@@ -524,6 +526,35 @@ func cmdHGetAll(st *store, a [][]byte, _ *options) (interface{}, error) {
 	out := make([]interface{}, 0, 2*len(e.fields))
 	for _, f := range e.fields {
 		out = append(out, bulk(f), bulk(e.hash[f]))
+	}
+	return out, nil
+}
+
+// cmdHKeys / cmdHVals: the fields / the values of a hash, in the order HGETALL reports them.
+func cmdHKeys(st *store, a [][]byte, _ *options) (interface{}, error) {
+	e, err := st.lookup(string(a[0]), kindHash)
+	if err != nil {
+		return nil, err
+	}
+	out := []interface{}{}
+	if e != nil {
+		for _, f := range e.fields {
+			out = append(out, bulk(f))
+		}
+	}
+	return out, nil
+}
+
+func cmdHVals(st *store, a [][]byte, _ *options) (interface{}, error) {
+	e, err := st.lookup(string(a[0]), kindHash)
+	if err != nil {
+		return nil, err
+	}
+	out := []interface{}{}
+	if e != nil {
+		for _, f := range e.fields {
+			out = append(out, bulk(e.hash[f]))
+		}
 	}
 	return out, nil
 }
